@@ -4,7 +4,10 @@ package all
 import (
 	_ "verif/harness/props/c04"
 	_ "verif/harness/props/c05"
+	_ "verif/harness/props/c06"
 	_ "verif/harness/props/c09"
 	_ "verif/harness/props/c10"
+	_ "verif/harness/props/c11"
+	_ "verif/harness/props/c12"
 	_ "verif/harness/props/c17"
 )
